@@ -94,15 +94,6 @@ struct PrintContext<'a> {
     source: &'a str,
 }
 
-/// Helper to create a breakable comma separator
-fn breakable_comma<'a, D, A>(allocator: &'a D) -> DocBuilder<'a, D, A>
-where
-    D: DocAllocator<'a, A>,
-    D::Doc: Clone,
-{
-    allocator.text(",").append(allocator.softline())
-}
-
 /// Convert a CST node to a pretty document
 fn cst_to_doc<'a, D, A>(
     node_id: GreenNodeId,
@@ -205,6 +196,67 @@ where
             }
         }
     }
+}
+
+/// Comments in the trivia of a token that the printer re-creates from a constant (`,` `{` `}`)
+fn trivia_comments<'a, D, A>(
+    token_index: usize,
+    leading: bool,
+    trailing: bool,
+    ctx: &PrintContext,
+    allocator: &'a D,
+) -> DocBuilder<'a, D, A>
+where
+    D: DocAllocator<'a, A>,
+    D::Doc: Clone,
+{
+    let mut doc = allocator.nil();
+    if let Some(idx) = find_preparsed_index(token_index, ctx.preparsed) {
+        if leading {
+            for trivia in ctx.preparsed.get_leading_trivia(idx, ctx.tokens) {
+                doc = doc.append(emit_trivia(trivia, ctx.source, allocator));
+            }
+        }
+        if trailing {
+            for trivia in ctx.preparsed.get_trailing_trivia(idx, ctx.tokens) {
+                doc = doc.append(emit_trivia(trivia, ctx.source, allocator));
+            }
+        }
+    }
+    doc
+}
+
+/// Join list items with commas. `seps[i]` holds the comments of the comma that follows item i in
+/// the source; they are printed right after the re-created comma. A trailing comma is dropped
+/// unless it carries comments.
+fn join_with_commas<'a, D, A>(
+    items: Vec<DocBuilder<'a, D, A>>,
+    seps: Vec<DocBuilder<'a, D, A>>,
+    gap: DocBuilder<'a, D, A>,
+    allocator: &'a D,
+) -> DocBuilder<'a, D, A>
+where
+    D: DocAllocator<'a, A>,
+    D::Doc: Clone,
+    A: Clone,
+{
+    let n = items.len();
+    let mut doc = allocator.nil();
+    for (i, item) in items.into_iter().enumerate() {
+        doc = doc.append(item);
+        let comments = seps.get(i).cloned().unwrap_or_else(|| allocator.nil());
+        if i + 1 < n {
+            doc = doc
+                .append(allocator.text(","))
+                .append(comments)
+                .append(gap.clone());
+        } else if !matches!(&*comments, pretty::Doc::Nil) {
+            // a trailing comma that carries comments stays, so that the comments stay attached to
+            // a comma when the output is formatted again
+            doc = doc.append(allocator.text(",")).append(comments);
+        }
+    }
+    doc
 }
 
 /// Find the preparsed index for an original token index
@@ -788,6 +840,7 @@ where
     let mut result = allocator.nil();
     let mut in_params = false;
     let mut params_docs = Vec::new();
+    let mut param_seps = Vec::new();
     let mut current_param = allocator.nil();
     let mut has_param_content = false;
     let mut after_params = false;
@@ -819,7 +872,12 @@ where
                             // `| |`: two adjacent bars would be read as the `||` operator
                             allocator.space()
                         } else {
-                            allocator.intersperse(params_docs.clone(), allocator.text(", "))
+                            join_with_commas(
+                                params_docs.clone(),
+                                param_seps.clone(),
+                                allocator.text(" "),
+                                allocator,
+                            )
                         };
 
                         result = result.append(params_combined);
@@ -828,6 +886,7 @@ where
                         in_params = false;
                         after_params = true;
                         params_docs.clear();
+                        param_seps.clear();
                         current_param = allocator.nil();
                         has_param_content = false;
                     }
@@ -837,6 +896,7 @@ where
                     // Comma separates params
                     if has_param_content {
                         params_docs.push(current_param.clone());
+                        param_seps.push(trivia_comments(*token_index, true, true, ctx, allocator));
                         current_param = allocator.nil();
                         has_param_content = false;
                     }
@@ -1001,7 +1061,9 @@ where
             match token.kind {
                 TokenKind::BlockBegin => {
                     // Emit { with trailing trivia (comments after {)
-                    result = result.append(allocator.text("{"));
+                    result = result
+                        .append(trivia_comments(*token_index, true, false, ctx, allocator))
+                        .append(allocator.text("{"));
                     // Capture trailing trivia for { (like // comment after {)
                     if let Some(idx) = find_preparsed_index(*token_index, ctx.preparsed) {
                         let trailing = ctx.preparsed.get_trailing_trivia(idx, ctx.tokens);
@@ -1045,7 +1107,10 @@ where
                         // Empty block but has trailing comment on {
                         result = result.append(open_brace_trivia.clone());
                     }
-                    result = result.append(allocator.text("}"));
+                    result = result
+                        .append(trivia_comments(*token_index, true, false, ctx, allocator))
+                        .append(allocator.text("}"))
+                        .append(trivia_comments(*token_index, false, true, ctx, allocator));
                     in_body = false;
                     continue;
                 }
@@ -1091,6 +1156,7 @@ where
     // We need to group them as: {, [ident = expr], comma, [ident = expr], }
 
     let mut fields: Vec<DocBuilder<'a, D, A>> = Vec::new();
+    let mut field_seps: Vec<DocBuilder<'a, D, A>> = Vec::new();
     let mut current_field = allocator.nil();
     let mut has_current_field = false;
     let mut open_doc = allocator.nil();
@@ -1122,6 +1188,7 @@ where
                     // End of current field, push it
                     if has_current_field {
                         fields.push(current_field.clone());
+                        field_seps.push(trivia_comments(*token_index, true, true, ctx, allocator));
                         current_field = allocator.nil();
                         has_current_field = false;
                     }
@@ -1159,7 +1226,7 @@ where
     if fields.is_empty() {
         open_doc.append(close_doc)
     } else {
-        let fields_doc = allocator.intersperse(fields, breakable_comma(allocator));
+        let fields_doc = join_with_commas(fields, field_seps, allocator.softline(), allocator);
         open_doc
             .append(fields_doc.nest(get_indent_size() as isize).group())
             .append(close_doc)
@@ -1235,7 +1302,8 @@ where
     // macro!(args)
     // Structure: identifier, !, (, args..., )
     let mut result = allocator.nil();
-    let mut args = Vec::new();
+    let mut args: Vec<DocBuilder<'a, D, A>> = Vec::new();
+    let mut arg_seps: Vec<DocBuilder<'a, D, A>> = Vec::new();
     let mut in_args = false;
     let mut open_doc = allocator.nil();
     let mut close_doc = allocator.nil();
@@ -1271,7 +1339,11 @@ where
                     continue;
                 }
                 TokenKind::Comma if in_args => {
-                    // Skip comma - we'll add our own with proper spacing
+                    // Skip comma - we'll add our own with proper spacing (its comments are kept)
+                    while arg_seps.len() + 1 < args.len() {
+                        arg_seps.push(allocator.nil());
+                    }
+                    arg_seps.push(trivia_comments(*token_index, true, true, ctx, allocator));
                     continue;
                 }
                 _ => {}
@@ -1289,7 +1361,7 @@ where
     if args.is_empty() {
         result.append(open_doc).append(close_doc)
     } else {
-        let args_doc = allocator.intersperse(args, allocator.text(", "));
+        let args_doc = join_with_commas(args, arg_seps, allocator.text(" "), allocator);
         result.append(open_doc).append(args_doc).append(close_doc)
     }
 }
@@ -1568,6 +1640,8 @@ where
     // An item is everything between two commas: it may consist of several children
     // (`x: float`, `y = 1.0`, `a = pat`, `a: float`).
     let mut items: Vec<DocBuilder<'a, D, A>> = Vec::new();
+    // comments attached to the comma that follows item i
+    let mut seps: Vec<DocBuilder<'a, D, A>> = Vec::new();
     let mut current: Option<DocBuilder<'a, D, A>> = None;
     let mut open_doc = allocator.nil();
     let mut close_doc = allocator.nil();
@@ -1601,10 +1675,9 @@ where
                     continue;
                 }
                 TokenKind::Comma if depth == 0 => {
-                    // Skip commas - we'll add them with proper breaking
-                    if let Some(cur) = current.take() {
-                        items.push(cur);
-                    }
+                    // Skip commas - we'll add them with proper breaking (their comments are kept)
+                    items.push(current.take().unwrap_or_else(|| allocator.nil()));
+                    seps.push(trivia_comments(*token_index, true, true, ctx, allocator));
                     continue;
                 }
                 _ => {}
@@ -1625,7 +1698,7 @@ where
     } else {
         // Use softline between items (after comma), but not after opening delimiter
         // This prioritizes breaking at binary operators over breaking at function call boundaries
-        let items_doc = allocator.intersperse(items, breakable_comma(allocator));
+        let items_doc = join_with_commas(items, seps, allocator.softline(), allocator);
         // Wrap in group for proper line breaking
         open_doc
             .append(items_doc.nest(get_indent_size() as isize))
@@ -1809,7 +1882,8 @@ where
     D::Doc: Clone + Pretty<'a, D, A>,
     A: Clone,
 {
-    let mut items = Vec::new();
+    let mut items: Vec<DocBuilder<'a, D, A>> = Vec::new();
+    let mut item_seps: Vec<DocBuilder<'a, D, A>> = Vec::new();
     let mut found_open = false;
     let mut open_doc = allocator.nil();
     let mut close_doc = allocator.nil();
@@ -1821,15 +1895,19 @@ where
             let token = &ctx.tokens[*token_index];
             match token.kind {
                 TokenKind::BlockBegin => {
-                    open_doc = allocator.text("{");
+                    open_doc = emit_token_with_trivia(*token_index, ctx, allocator);
                     found_open = true;
                     continue;
                 }
                 TokenKind::BlockEnd => {
-                    close_doc = allocator.text("}");
+                    close_doc = emit_token_with_trivia(*token_index, ctx, allocator);
                     continue;
                 }
                 TokenKind::Comma => {
+                    while item_seps.len() + 1 < items.len() {
+                        item_seps.push(allocator.nil());
+                    }
+                    item_seps.push(trivia_comments(*token_index, true, true, ctx, allocator));
                     continue;
                 }
                 TokenKind::Ident | TokenKind::IdentFunction | TokenKind::IdentVariable => {
@@ -1850,7 +1928,7 @@ where
     if items.is_empty() {
         open_doc.append(close_doc)
     } else {
-        let items_doc = allocator.intersperse(items, allocator.text(", "));
+        let items_doc = join_with_commas(items, item_seps, allocator.text(" "), allocator);
         open_doc.append(items_doc).append(close_doc)
     }
 }
